@@ -4,6 +4,7 @@ import (
 	"fmt"
 	"math"
 	"runtime"
+	"time"
 
 	"github.com/sahandsafizadeh/qeep/tensor"
 
@@ -236,9 +237,47 @@ func runC01(c *fw.Ctx) {
 				k.Key("ladder/kind%d/depth%d", kind, d)
 				k.Count("deep_graph_backprops", 1)
 				k.Max("max_depth", int64(d))
-				c01OneRoot(k, p, vals, len(p)-1)
+				// a walk that follows every PATH instead of every node needs 2^depth steps here: the work is bounded in CPU time
+				// (20 s for a call that needs milliseconds), independent of how loaded the machine is
+				k.CPUGuard(20*time.Second, fmt.Sprintf("BackPropagate over a ladder of depth %d (%d operations, every level read twice by the next)", d, len(p)), func() {
+					c01OneRoot(k, p, vals, len(p)-1)
+				})
 			})
 		}
+	}
+
+	// ---------- wide fan-in: one Concat over 33..130 interior tensors (tracked ones at late positions), weighted and back-propagated ----------
+	for i := 0; i < c.Pick(24, 400); i++ {
+		c.Case(func(k *fw.K) {
+			r := k.Rng
+			n := []int{33, 64, 65, 72, 100, 130}[r.Intn(6)]
+			var p ref.Prog
+			var parts []int
+			for j := 0; j < n; j++ {
+				v := Shuffled(r, Unique(r, []int{1, 2}, 0.2, 2))
+				p = append(p, ref.Instr{Op: "leaf", Shape: v.Shape, Data: v.Data, Tracked: r.Intn(3) > 0 || j >= 64})
+				leaf := len(p) - 1
+				if r.Intn(2) == 0 {
+					p = append(p, ref.Instr{Op: "scale", In: []int{leaf}, F: 2})
+					parts = append(parts, len(p)-1)
+				} else {
+					parts = append(parts, leaf)
+				}
+			}
+			p = append(p, ref.Instr{Op: "concat", In: parts, Dim: 0})
+			cat := len(p) - 1
+			w := Shuffled(r, Unique(r, []int{n, 2}, 0.5, 2))
+			p = append(p, ref.Instr{Op: "leaf", Shape: w.Shape, Data: w.Data}, ref.Instr{Op: "mul", In: []int{cat, cat + 1}})
+			vals, err := p.Eval()
+			if err != nil {
+				k.Failf("harness: %v", err)
+				return
+			}
+			k.Case = map[string]any{"family": "wide-concat", "operands": n}
+			k.Key("wide-concat/%d/%d", n, i%4)
+			k.Count("wide_fan_in_graphs", 1)
+			c01OneRoot(k, p, vals, len(p)-1)
+		})
 	}
 
 	// ---------- endurance: 70 000 back-propagations in ONE process (counters, generation marks, pooled state) ----------
